@@ -140,3 +140,28 @@ func utxoCacheRemove(c *q.Ctx) {
 	inAll := []q.Cond{{Canon: "has(p0.All,p1)", Sense: true}, {Canon: "(nil == p0.All[p1][p2])", Sense: false}}
 	c.Effect(rm, q.Eff{Spec: "delete", Arg: 0, Glob: "p0.All[p1]", Req: inAll, Exact: true, Keep: keep, Why: "the entry leaves All exactly when it is in All (what Available says does not matter)", Rule: "K6"})
 }
+
+// utxoCacheEviction (C13, C05): a block is replayed in ONE batch, so an output created earlier in the block is found by
+// its in-block spender only in the output cache: the cache must hand the NEWEST entries the longest life - entries
+// enter at one end of the LRU list and the victim is taken from the other.
+func utxoCacheEviction(c *q.Ctx) {
+	const name = "bcs/ledger/xledger/state/utxo::(*UtxoCache).Insert"
+	ins := c.Fn(name)
+	if ins == nil {
+		return
+	}
+	pf, pb := len(q.CallsIn(ins, "list::List.PushFront")), len(q.CallsIn(ins, "list::List.PushBack"))
+	c.Sites += pf + pb
+	want := ""
+	switch {
+	case pf == 1 && pb == 0:
+		want = "Back"
+	case pb == 1 && pf == 0:
+		want = "Front"
+	default:
+		c.Fail("K11", name, "one insertion end of the LRU list", "-", "PushFront/PushBack calls not as expected")
+		return
+	}
+	c.ArgIs(ins, "UtxoCache.remove", 1, "list.(*List)."+want+"(p0.List).Value[0]", 1, "the victim is the entry at the end opposite to the insertion end (least recently inserted), never the entry just inserted")
+	c.ArgIs(ins, "UtxoCache.remove", 2, "list.(*List)."+want+"(p0.List).Value[1]", 1, "address and key of the victim come from the same list element")
+}
